@@ -250,6 +250,55 @@ def asg_classify(clause, draws, obs):
     return None
 
 
+def assign_sequences(sym, tier):
+    """The assignment strategies alone, over an arbitrary sequence of member sets (any subset of three
+    names per generation, so several members may join or leave in one rebalance) and partition counts:
+    every generation gives each partition exactly one owner among the current members; the sticky
+    strategy moves no partition between two members that are both still present."""
+    r = Result()
+    si = sym.choice("strategy", 3)
+    strat = [RangeAssignment(), RoundRobinAssignment(), StickyAssignment()][si]
+    nparts = 1 + sym.choice("partitions_minus_1", 4)
+    parts = list(range(nparts))
+    names = ["ca", "cb", "cc"]
+    G = 4 if tier == "quick" else 5
+    prev = {}
+    hist = []
+    for g in range(G):
+        mask = sym.choice(f"members{g}", 8)
+        cur = [nm for i, nm in enumerate(names) if (mask >> i) & 1]
+        asg = strat.assign(list(parts), list(reversed(cur)) if g % 2 else list(cur))
+        hist.append((cur, {k: list(v) for k, v in asg.items()}))
+        owners = {}
+        for c_, ps in asg.items():
+            for p_ in ps:
+                owners.setdefault(p_, []).append(c_)
+        if cur:
+            for p_ in parts:
+                if len(owners.get(p_, [])) != 1:
+                    r.bad("each_partition_has_exactly_one_owner", {"history": hist})
+                    break
+            if not set(asg) <= set(cur):
+                r.bad("partitions_owned_only_by_current_members", {"history": hist})
+            if any(p_ not in parts for p_ in owners):
+                r.bad("only_existing_partitions_assigned", {"history": hist})
+        elif any(asg.values()):
+            r.bad("no_members_no_assignment", {"history": hist})
+        if si == 2 and prev and cur:
+            for c_, ps in prev.items():
+                if c_ in cur:
+                    for p_ in ps:
+                        if owners.get(p_) and owners[p_] != [c_] and owners[p_][0] in prev:
+                            r.bad("sticky_keeps_partitions_of_members_that_stay", {"history": hist})
+        if len(cur) >= 2 and prev and set(prev) - set(cur) and len(set(cur) & set(prev)) >= 1:
+            r.wit.add("member_left_while_another_stayed")
+        if prev and set(cur) - set(prev):
+            r.wit.add("member_joined_or_rejoined")
+        prev = {k: list(v) for k, v in asg.items()} if cur else {}
+    r.obs = {"history": hist}
+    return r
+
+
 MANIFEST = {
     "note": "Message-queue delivery latency from {0, 1 ms}; publish / poll instants are symbolic whole milliseconds; consumer reactions are a symbolic script. "
             "Topic, EventLog offsets/retention, stream processor, outbox relay and idempotency store are not covered by this check.",
@@ -264,6 +313,12 @@ HARNESSES = [
       functions=["MessageQueue.publish/poll/_deliver_message/acknowledge/reject/handle_event/_get_next_consumer", "DeadLetterQueue.add_message"],
       bounds=lambda tier: {"messages": 2, "polls": 3 if tier == "quick" else 4, "consumer actions": ["ack", "reject+requeue", "reject", "ignore (optionally acknowledged late after a visibility timeout + schedule_redelivery)"], "max_redeliveries": [1, 2], "delivery latency": [0.0, 0.001]},
       outside=["several consumers / unsubscribe during a delivery", "Topic fan-out", "EventLog offsets and retention", "stream_processor, outbox_relay, idempotency_store"]),
+    H(name="c19_assign_sequences", fn=assign_sequences, shape="K", budget=lambda tier: 900.0 if tier == "quick" else 3000.0,
+      cubes=lambda tier: [{"strategy": a, "partitions_minus_1": b} for a in range(3) for b in range(4)],
+      require=lambda tier: ["member_left_while_another_stayed", "member_joined_or_rejoined"], classify=asg_classify,
+      functions=["RangeAssignment.assign", "RoundRobinAssignment.assign", "StickyAssignment.assign"],
+      bounds=lambda tier: {"generations": 4 if tier == "quick" else 5, "member set per generation": "any subset of 3 names (given in reverse order in odd generations)", "partitions": [1, 2, 3, 4]},
+      outside=["more than 3 consumers / 4 partitions"]),
     H(name="c19_assignment", fn=assignment, shape="S", budget=lambda tier: 900.0 if tier == "quick" else 3000.0,
       cubes=lambda tier: [{"strategy": a, "partitions_minus_2": b, "who0": 0, "who1": c} for a in range(3) for b in range(3) for c in range(3)],
       require=lambda tier: ["two_members", "script_completed"], classify=asg_classify,
